@@ -47,6 +47,7 @@ class ResolveOuterVars(ast.NodeTransformer):
         from hy.compiler import asty
         scope = node._scope
         defined = set()
+        as_global = set()
         undefined = list(node.names)  # keep order, so can't use set
         while undefined and scope.parent:
             scope = scope.parent
@@ -54,26 +55,27 @@ class ResolveOuterVars(ast.NodeTransformer):
             if isinstance(scope, ScopeFn):
                 if scope.is_fn or isinstance(scope, ScopeGen):
                     has = scope.defined
+                    # A name that the function declared `global` is
+                    # the module-level variable.
+                    as_global.update(has.intersection(undefined, scope.global_vars))
                 # Otherwise it's a class body, whose variables aren't
                 # visible to nested functions.
             elif isinstance(scope, ScopeLet):
                 has = set(scope.bindings.keys())
             elif isinstance(scope, ScopeGlobal):
-                res = []
                 if not scope.defined.issuperset(undefined):
                     # emit nonlocal, let python raise the error
-                    break
-                if undefined:
-                    res.append(asty.Global(node, names=list(undefined)))
-                if defined:
-                    # Keep the order of the declaration, so the compiled
-                    # code doesn't depend on the hash seed.
-                    res.append(asty.Nonlocal(
-                        node, names=[n for n in node.names if n in defined]))
-                return res
-            defined.update(has.intersection(undefined))
+                    return [asty.Nonlocal(node, names=node.names)]
+                as_global.update(undefined)
+                break
+            defined.update(has.intersection(undefined) - as_global)
             undefined = [name for name in undefined if name not in has]
-        return [asty.Nonlocal(node, names=node.names)] if node.names else []
+        # Keep the order of the declaration, so the compiled
+        # code doesn't depend on the hash seed.
+        return [
+            cls(node, names=[n for n in node.names if n in names])
+            for cls, names in ((asty.Global, as_global), (asty.Nonlocal, defined))
+            if names]
 
 
 class NodeRef:
@@ -306,6 +308,8 @@ class ScopeFn(ScopeBase):
         "list: of all vars accessedto in this scope"
         self.nonlocal_vars = {}
         "set: of all `nonlocal`'s defined in this scope"
+        self.global_vars = set()
+        "set: of all names declared `global` in this scope"
         self.is_fn = args is not None
         """
         bool: `True` if this scope is being used to track a python
@@ -352,6 +356,7 @@ class ScopeFn(ScopeBase):
             self.nonlocal_vars.update({name: node for name in node.names})
         else:
             self.defined.update(node.names)
+            self.global_vars.update(node.names)
 
         for n in self.seen:
             if n.name in node.names:
